@@ -6,7 +6,7 @@
    reports which tables of the model's post-state differ from the implementation's and
    whether the outcome class agrees; it also evaluates the invariant monitors on the
    implementation's post-state. All comparison logic lives here, in Gallina. *)
-From SaoVerif Require Import Base.Prelude Base.Ints Model.Did Model.DidSpec Model.DidMon Model.Types Model.Monad Model.Bank Model.Select Model.Node Model.Storage Model.Sao Model.Hooks Model.App Model.Spec Model.Monitors Model.OpMonitors.
+From SaoVerif Require Import Base.Prelude Base.Ints Model.Did Model.DidSpec Model.DidMon Model.Types Model.Monad Model.Bank Model.Select Model.Node Model.Storage Model.Sao Model.Hooks Model.App Model.Spec Model.Monitors Model.OpMonitors Model.Genesis.
 
 Definition dec_tables (v : value) : option tables :=
   match v with
@@ -199,12 +199,25 @@ Definition check_blocks (cx : Ctx) (pre : tables) (n dt : Z) (outcome : string) 
   | _, _ => res_undecodable "state"
   end.
 
+(* genesis export / import: the implementation's re-imported state against the model's *)
+Definition check_export_import (cx : Ctx) (pre : tables) (outcome : string) (post : tables) : value :=
+  match dec_state pre, dec_state post with
+  | Some s, Some ipost =>
+      let s' := export_import s in
+      mk_res "genesis" "ok" (String.eqb outcome "ok") (diff_tables (enc_state s') post) "export/import"
+             (failed_monitors [("genesis.roundtrip_complete", tables_eqb pre post);
+                               ("genesis.export_validates", String.eqb outcome "ok")])
+             (negb (tables_eqb pre post))
+  | _, _ => res_undecodable "state"
+  end.
+
 Definition check_step (pre ctx op outcome post : value) : value :=
   match dec_tables pre, dec_ctx ctx, unS outcome, dec_tables post with
   | Some pre, Some cx, Some outcome, Some post =>
       if is_select_op op then check_select cx pre op post
       else match op with
            | VL [VS "Blocks"; VZ n; VZ dt] => check_blocks cx pre n dt outcome post
+           | VL [VS "ExportImport"; VS _] => check_export_import cx pre outcome post
            | _ =>
            match dec_op op with
            | Some o => check_app_step cx pre o outcome post
